@@ -148,7 +148,11 @@ func (x *Exec) pf(bs []*Term) *Term {
 		}
 	}
 	// the contract function yields the IEEE bit pattern; equalities about it stay in bit-vector logic
-	return x.tb.FFromBits(x.tb.UF(fmt.Sprintf("pf%d", len(bs)), BV(64), arg))
+	res := x.tb.FFromBits(x.tb.UF(fmt.Sprintf("pf%d", len(bs)), BV(64), arg))
+	if len(x.pfApps) < 64 {
+		x.pfApps = append(x.pfApps, pfApp{bytes: append([]*Term{}, bs...), res: res})
+	}
+	return res
 }
 
 func (x *Exec) formatFloat(f *Term, verb byte) strVal {
@@ -256,7 +260,108 @@ func (x *Exec) formatFloat1(f *Term, verb byte) strVal {
 	}
 	// round-trip contract: the text denotes x
 	x.axiom(tb.Eq(tb.FToBits(x.pf(out)), tb.FToBits(f)))
+	x.ffApps = append(x.ffApps, ffApp{f: f, verb: verb, text: append([]*Term{}, out...)})
 	return x.mkStr(out)
+}
+
+// ffApp / pfApp record the applications of the float-text contract on the current path, for refinement.
+type ffApp struct {
+	f    *Term
+	verb byte
+	text []*Term
+}
+
+type pfApp struct {
+	bytes []*Term
+	res   *Term
+}
+
+// refineFloatText is called when the solver has a model that violates an assertion. The float-text contract
+// is loose (the digits are not tied to the value), so the model may pair a float with a text the linked
+// library would never print, or a text with a value it would never parse. For every application of the
+// contract on this path the real strconv function is evaluated on the model's concrete argument and the true
+// result is asserted as a fact (true statements about the library: they can only remove spurious models);
+// then the solver is asked again. Returns the final verdict for the query.
+func (x *Exec) refineFloatText() string {
+	tb := x.tb
+	for iter := 0; iter < 8; iter++ {
+		changed := false
+		for _, a := range x.ffApps {
+			ts := append([]*Term{tb.FToBits(a.f)}, a.text...)
+			vals, err := x.sol.GetValues(ts)
+			if err != nil {
+				return "unknown"
+			}
+			fv := math.Float64frombits(vals[0])
+			real := strconv.FormatFloat(fv, a.verb, -1, 64)
+			same := len(real) == len(a.text)
+			for i := 0; same && i < len(real); i++ {
+				same = byte(vals[1+i]) == real[i]
+			}
+			if same {
+				continue
+			}
+			changed = true
+			// repair the pairing from the text side: the model's text t is printed by exactly one float
+			// (ParseFloat(t), if t is that float's shortest form) or by none
+			txt := make([]byte, len(a.text))
+			for i := range txt {
+				txt[i] = byte(vals[1+i])
+			}
+			textIs := tb.True()
+			for i := range a.text {
+				textIs = tb.And(textIs, tb.Eq(a.text[i], tb.bytes[txt[i]]))
+			}
+			rv, perr := strconv.ParseFloat(string(txt), 64)
+			if perr == nil && strconv.FormatFloat(rv, a.verb, -1, 64) == string(txt) {
+				pair := tb.And(textIs, tb.Eq(tb.FToBits(a.f), tb.Const(64, math.Float64bits(rv))))
+				x.sol.Push()
+				x.sol.Assert(pair)
+				x.R.feas(1)
+				r := x.sol.Check()
+				x.sol.Pop(1)
+				if r == "sat" {
+					x.sol.Assert(pair) // a real (value, text) pair under which the assertion still fails
+				} else if r == "unsat" {
+					x.sol.Assert(tb.Not(textIs)) // the only float that prints t does not violate: t is out
+				} else {
+					return "unknown"
+				}
+			} else {
+				x.sol.Assert(tb.Not(textIs)) // no float prints this text
+			}
+			break // one repair per round, then ask again
+		}
+		for _, a := range x.pfApps {
+			ts := append([]*Term{tb.FToBits(a.res)}, a.bytes...)
+			vals, err := x.sol.GetValues(ts)
+			if err != nil {
+				return "unknown"
+			}
+			txt := make([]byte, len(a.bytes))
+			for i := range txt {
+				txt[i] = byte(vals[1+i])
+			}
+			rv, perr := strconv.ParseFloat(string(txt), 64)
+			if perr != nil || math.Float64bits(rv) == vals[0] {
+				continue
+			}
+			changed = true
+			eq := tb.True()
+			for i := range a.bytes {
+				eq = tb.And(eq, tb.Eq(a.bytes[i], tb.bytes[txt[i]]))
+			}
+			x.sol.Assert(tb.Implies(eq, tb.Eq(tb.FToBits(a.res), tb.Const(64, math.Float64bits(rv)))))
+		}
+		if !changed {
+			return "sat"
+		}
+		x.R.feas(1)
+		if r := x.sol.Check(); r != "sat" {
+			return r
+		}
+	}
+	return "unknown"
 }
 
 func (x *Exec) bound(name string, def int64) int64 {
